@@ -195,6 +195,25 @@ def check_U1(chk, fn, g):
     return n
 
 
+RENAME_WRAPPERS = {}     # qualified name -> (function, index of the source parameter, index of the target parameter)
+
+
+def find_rename_wrappers(unit, cls):
+    """Helpers that do nothing but rename(p_i, p_j) (and abort on failure): a call of one is a rename of its arguments."""
+    RENAME_WRAPPERS.clear()
+    for m in unit.methods_of(cls):
+        if not m.get("body") or len(m["params"]) < 2 or m["name"] == "get_restart_writer":
+            continue
+        calls = [x for x in C.walk_stmt(m["body"]) if C.is_call(x) and x.get("fn") in ("rename", "std::rename")]
+        if len({id(x) for x in calls}) != 1:
+            continue
+        x = calls[0]
+        pid = {p["id"]: i for i, p in enumerate(m["params"]) if "id" in p}
+        a, b = _root_local(x["a"][0]), _root_local(x["a"][1])
+        if a is not None and b is not None and a.get("id") in pid and b.get("id") in pid:
+            RENAME_WRAPPERS[m["full"].split("(")[0]] = (m, pid[a["id"]], pid[b["id"]])
+
+
 def _rename_calls(g):
     out = []
     for node in g.nodes:
@@ -205,6 +224,10 @@ def _rename_calls(g):
         for x in C.walk(node.ast if node.kind != "init" else (node.ast.get("x") or {})):
             if C.is_call(x) and (x.get("fn") in ("rename", "std::rename")):
                 out.append((node, x))
+            elif C.is_call(x) and x.get("fn") in RENAME_WRAPPERS and len(x["a"]) == len(RENAME_WRAPPERS[x["fn"]][0]["params"]):
+                w, i, j = RENAME_WRAPPERS[x["fn"]]
+                out.append((node, {"k": "Call", "fn": "rename", "n": "rename", "a": [x["a"][i], x["a"][j]], "l": x.get("l"),
+                                   "c": x.get("c"), "wrapper": x["fn"]}))
     return out
 
 
@@ -272,6 +295,7 @@ def run(chk, prog):
     dump_local = _root_local(init["a"][0]) if init and init.get("a") else None
     if dump_local is None:
         raise AnalysisBroken("cannot identify the dump file name passed to RestartWriter")
+    find_rename_wrappers(u, "RestartManager")
     renames = _rename_calls(g)
     dump_renames = [(n, x) for n, x in renames
                     if (_root_local(x["a"][0]) or {}).get("id") == dump_local["id"]]
@@ -299,7 +323,17 @@ def run(chk, prog):
     chk.floor("U6", n_u6, 4)
 
     # ---- U4: every rename result is compared and failure aborts -------------
+    u4_targets = []
     for n, x in renames:
+        if x.get("wrapper"):
+            w_ = RENAME_WRAPPERS[x["wrapper"]][0]
+            gw = C.CFG(w_)
+            for n2, x2 in _rename_calls(gw):
+                if not x2.get("wrapper") and not any(x2 is t[1] for t in u4_targets):
+                    u4_targets.append((n2, x2, gw, w_))
+        else:
+            u4_targets.append((n, x, g, fn))
+    for n, x, g4, fn4 in u4_targets:
         inst = "rename(%s, %s)" % (C.pretty(x["a"][0]), C.pretty(x["a"][1]))
         okk = False
         if n.kind == "branch":
@@ -308,10 +342,10 @@ def run(chk, prog):
                     (C.const_int(e["b"]) == 0 or C.const_int(e["a"]) == 0):
                 fail_label = (e["op"] == "!=")
                 fail_succ = [s for lab, s in n.succs if lab == fail_label]
-                okk = bool(fail_succ) and g.exit.id not in g.reachable(fail_succ[0])
-        chk.require(okk, "U4", inst, where(x, fn),
+                okk = bool(fail_succ) and g4.exit.id not in g4.reachable(fail_succ[0])
+        chk.require(okk, "U4", inst, where(x, fn4),
                     "result of rename is not tested with every failure path ending in abort",
-                    function=fn["qname"], construct=inst)
+                    function=fn4["qname"], construct=inst)
     chk.floor("U4", len(renames), 1)
 
     # ---- U2: rename(dump -> backup 0) iff (max>0 and restarts>0), before the open
@@ -390,9 +424,28 @@ def run(chk, prog):
     chk.require(len(rets) >= 1, "U2", "every return follows the open", where(fn),
                 "no return statement", function=fn["qname"])
     # backup 0 is the rename target
+    def helper_literal(call):
+        """literal pieces of a name helper name(k) with k replaced by the constant argument of the call"""
+        for hm in u.methods_of("RestartManager"):
+            if hm["full"].split("(")[0] == call.get("fn") and hm.get("body") and len(hm["params"]) == 1 and \
+                    C.const_int(call["a"][0]) is not None:
+                pk = hm["params"][0]["id"]
+                nodes_, seen_ = [], set()
+                for s3 in C.walk_stmt(hm["body"]):
+                    if s3.get("k") in ("Str", "Ref") and id(s3) not in seen_ and s3.get("l") is not None:
+                        seen_.add(id(s3))
+                        nodes_.append(s3)
+                nodes_.sort(key=lambda z: (z.get("l", 0), z.get("c", 0)))
+                return "".join(z["v"] if z.get("k") == "Str" else (str(C.const_int(call["a"][0])) if z.get("id") == pk else "")
+                               for z in nodes_)
+        return None
     for n, x in dump_renames:
         tgt = _root_local(x["a"][1])
         lit = None
+        if tgt is None:
+            for y in C.walk(x["a"][1]):
+                if y.get("k") == "Call" and (y.get("fn") or "").startswith("RestartManager::") and len(y.get("a", [])) == 1:
+                    lit = helper_literal(y) or lit
         if tgt is not None:
             for node in g.nodes:
                 if node.kind == "decl":
@@ -426,7 +479,11 @@ def run(chk, prog):
     loops = [s for s in C.walk_stmt(fn["body"]) if s.get("k") in ("For", "While")]
     shift_loops = []
     for lp in loops:
-        inner = [x for x in C.walk_stmt(lp["body"]) if C.is_call(x) and x.get("fn") in ("rename", "std::rename")]
+        inner = []
+        for x in C.walk_stmt(lp["body"]):
+            if C.is_call(x) and (x.get("fn") in ("rename", "std::rename") or x.get("fn") in RENAME_WRAPPERS) and \
+                    not any(x is y for y in inner):
+                inner.append(x)
         if inner:
             shift_loops.append((lp, inner))
     if len(shift_loops) != 1 or len(shift_loops[0][1]) != 1:
@@ -522,6 +579,9 @@ def run(chk, prog):
         for x in C.walk(e):
             if C.is_call(x) and x.get("fn") in ("rename", "std::rename"):
                 renamed.append((index_of_name(x["a"][0]), index_of_name(x["a"][1]), env.vals[("l", ivar["id"])]))
+            elif C.is_call(x) and x.get("fn") in RENAME_WRAPPERS:
+                w_, i_, j_ = RENAME_WRAPPERS[x["fn"]]
+                renamed.append((index_of_name(x["a"][i_]), index_of_name(x["a"][j_]), env.vals[("l", ivar["id"])]))
         for x in C.walk(e):
             if x.get("k") == "Un" and x["op"] in ("pre--", "post--", "pre++", "post++") and \
                     (C.ref_key(x["x"]) or (None, None))[1] == ivar["id"]:
@@ -529,6 +589,8 @@ def run(chk, prog):
             if x.get("k") == "Bin" and x["op"] in ("-=", "+=") and (C.ref_key(x["a"]) or (None, None))[1] == ivar["id"]:
                 d0 = conv.conv(x["b"], env)
                 env.vals[("l", ivar["id"])] = env.vals[("l", ivar["id"])] + (d0 if x["op"] == "+=" else -d0)
+            if x.get("k") == "Bin" and x["op"] == "=" and (C.ref_key(x["a"]) or (None, None))[1] == ivar["id"]:
+                env.vals[("l", ivar["id"])] = conv.conv(x["b"], env)
 
     def visit(st):
         k = st.get("k")
@@ -544,6 +606,11 @@ def run(chk, prog):
                     visit_expr(d["init"])
                     if idx is not None:
                         names[d["id"]] = idx
+                    elif "unsigned" in (d.get("t") or "") or (d.get("t") or "").replace("const ", "").strip() in ("int", "long"):
+                        try:
+                            env.vals[("l", d["id"])] = conv.conv(d["init"], env)     # an index computed from the loop counter
+                        except AnalysisBroken:
+                            pass
             return
         elif k == "If":
             visit_expr(st["c"])
